@@ -216,12 +216,12 @@ def fieldConv (E : Env) (bad : List PyTy) (st : St) (ca : Cls) (fb : Field) : Bo
   match ca.fields.find? (·.wireS == fb.wireS) with
   | Option.none => fb.dflt == Dflt.none && absentVldOK E fb
   | some fa =>
-    let nn := (fa.omitU && fa.dflt == Dflt.none) || !((kindsOf E kindsFuel fa.ty).contains Kind.none)
+    let nn := (fa.omitU && fa.dflt == Dflt.none && !fa.ty.anyNull) || !((kindsOf E kindsFuel fa.ty).contains Kind.none)
     let sure := fa.certain || st.present.contains fb.wireS
     tyConv bad nn fa.ty fb.ty && vldConv nn fa.vld fb.vld &&
     (sure || (fb.dflt == Dflt.none && absentVldOK E fb)) &&
     (match fb.dflt with
-     | .none => !fb.omitU || nn
+     | .none => !fb.omitU || nn || fb.ty.anyNull
      | .str _ => !fb.omitU
      | _ => true)
 
@@ -246,7 +246,7 @@ def inTy (bad : List PyTy) (T0 B : PyTy) : Bool :=
 def inUnion (bad : List PyTy) (T0 B : PyTy) : Bool :=
   !(isBad bad T0) && (match T0 with | .union ts => ts.any (PyTy.eqb B) | _ => false)
 
-def PyTy.isInt : PyTy → Bool
+def PyTy.isIntTy : PyTy → Bool
   | .int => true
   | _ => false
 
@@ -259,7 +259,7 @@ def selfRepF (bad : List PyTy) : Nat → PyTy → Bool
     | .literal _ => true
     | .unknown _ => true
     | .seq t => selfRepF bad n t
-    | .union ts => ts.all (fun t => selfRepF bad n t || (match t with | .float => ts.any PyTy.isInt && !(isBad bad .int) | _ => false))
+    | .union ts => ts.all (fun t => selfRepF bad n t || (match t with | .float => ts.any PyTy.isIntTy && !(isBad bad .int) | _ => false))
     | _ => false
 
 def PyTy.isUnknownTy : PyTy → Bool
@@ -276,10 +276,10 @@ def elemTargets : PyTy → List PyTy
   | _ => []
 
 /-- walk a hook program from an abstract state; `T0` is the annotation the result must be a reading of -/
-def chk (E : Env) (bad U : List PyTy) (top : Bool) : HExpr → PyTy → St → Bool
+def chk (E : Env) (bad : List PyTy) (ok : PyTy → Bool) (top : Bool) : HExpr → PyTy → St → Bool
   | .ite c a b, T0, st =>
     (match split E c st with
-     | some (ts, fs) => ts.all (chk E bad U top a T0) && fs.all (chk E bad U top b T0)
+     | some (ts, fs) => ts.all (chk E bad ok top a T0) && fs.all (chk E bad ok top b T0)
      | Option.none => false)
   | .retNone, T0, st => (match st.ty with | .none => true | _ => false) && inTy bad T0 .none
   | .retSelf, T0, st =>
@@ -293,16 +293,16 @@ def chk (E : Env) (bad U : List PyTy) (top : Bool) : HExpr → PyTy → St → B
      | .seq _ => st.len == some true && inTy bad T0 st.ty
      | _ => false)
   | .strOf, T0, st => (match st.ty with | .str => true | _ => false) && inTy bad T0 .str
-  | .structAs B, T0, st => inU U B && subOK E bad st B && inTy bad T0 B && !(top && B.isUnionTy)
+  | .structAs B, T0, st => ok B && subOK E bad st B && inTy bad T0 B && !(top && B.isUnionTy)
   | .mapEach e, T0, st =>
     (match st.ty with
      | .seq t =>
        (elemTargets T0).any (fun t' =>
-         inTy bad T0 (.seq t') && !(isBad bad (.seq t')) && (altsOf t).all (fun a => chk E bad U false e t' { ty := a }))
+         inTy bad T0 (.seq t') && !(isBad bad (.seq t')) && (altsOf t).all (fun a => chk E bad ok false e t' { ty := a }))
      | _ => false)
   | .tupleInts n, T0, st =>
     (match st.ty with
-     | .tuple ts => ts.length == n && ts.all PyTy.isInt && inTy bad T0 st.ty
+     | .tuple ts => ts.length == n && ts.all PyTy.isIntTy && inTy bad T0 st.ty
      | _ => false)
   | .raise _, _, _ => false
 
@@ -311,9 +311,9 @@ def HExpr.isRetSelf : HExpr → Bool
   | _ => false
 
 /-- the program registered for annotation `T0` is correct on every value readable as `T0` -/
-def dispatchOK (E : Env) (bad U : List PyTy) (T0 : PyTy) (h : HExpr) : Bool :=
+def dispatchOK (E : Env) (bad : List PyTy) (ok : PyTy → Bool) (T0 : PyTy) (h : HExpr) : Bool :=
   match T0 with
-  | .union ts => ts.all (fun a => a.isUnknownTy || chk E bad U true h T0 { ty := a })
+  | .union ts => ts.all (fun a => a.isUnknownTy || chk E bad ok true h T0 { ty := a })
   | _ => h.isRetSelf && selfRepF bad 8 T0
 
 def simpleTyF : Nat → PyTy → Bool
@@ -325,35 +325,51 @@ def simpleTyF : Nat → PyTy → Bool
     | .union ts => (match PyTy.optionalOf ts with | some x => simpleTyF n x | Option.none => false)
     | _ => false
 
-/-- per annotation of the universe `U`: whatever `structTy` does at it is correct, and everything it
-    recurs into is again in `U` -/
-def tyOK (E : Env) (bad U : List PyTy) (ty : PyTy) : Bool :=
+/-- Annotations structuring can recur into, checked structurally.  `H` lists the annotations that
+    are dispatched by a program (a registered hook or a disambiguator cattrs built); their programs
+    are checked once each (`progsOK`), classes are checked through the class table (`clsesOK`). -/
+def lightOK (E : Env) (bad H : List PyTy) : Nat → PyTy → Bool
+  | 0, _ => false
+  | n + 1, ty =>
+    isBad bad ty ||
+    (match E.hookFor ty with
+     | some h =>
+       (match ty with
+        | .union _ => inU H ty
+        | _ => h.isRetSelf && selfRepF bad 8 ty)
+     | Option.none =>
+       match ty with
+       | .seq t => lightOK E bad H n t
+       | .dict k v => lightOK E bad H n k && lightOK E bad H n v
+       | .tuple ts => ts.all (lightOK E bad H n)
+       | .union ts =>
+         (match PyTy.optionalOf ts with
+          | some x => lightOK E bad H n x && !x.isUnionTy
+          | Option.none => ts.all PyTy.isAttrsOrNone && (E.disambFor ty).isSome && inU H ty)
+       | .obj => false
+       | _ => true)
+
+def lightFuel : Nat := 8
+
+/-- the program that dispatches annotation `ty` passes the dispatch checker -/
+def progOK (E : Env) (bad H : List PyTy) (ty : PyTy) : Bool :=
   isBad bad ty ||
   (match E.hookFor ty with
-   | some h => dispatchOK E bad U ty h
+   | some h => dispatchOK E bad (lightOK E bad H lightFuel) ty h
    | Option.none =>
-     match ty with
-     | .seq t => inU U t
-     | .dict k v => inU U k && inU U v
-     | .tuple ts => ts.all (inU U)
-     | .cls c =>
-       (match E.pkg.findCls c with
-        | some cl => cl.fields.all (fun f => inU U f.ty && (f.vld == Vld.none || simpleTyF 4 f.ty))
-        | Option.none => true)
-     | .union ts =>
-       (match PyTy.optionalOf ts with
-        | some x => inU U x && !x.isUnionTy
-        | Option.none =>
-          ts.all PyTy.isAttrsOrNone &&
-          (match E.disambFor ty with
-           | some h => dispatchOK E bad U ty h
-           | Option.none => false))
-     | .obj => false
-     | _ => true)
+     (match E.disambFor ty with
+      | some h => dispatchOK E bad (lightOK E bad H lightFuel) ty h
+      | Option.none => false))
 
-def envOK (E : Env) (bad U : List PyTy) : Bool := U.all (tyOK E bad U)
+def clsOK (E : Env) (bad H : List PyTy) (cl : Cls) : Bool :=
+  cl.fields.all (fun f => lightOK E bad H lightFuel f.ty && (f.vld == Vld.none || simpleTyF 4 f.ty))
 
-/-- failure list instead of a Bool, so that a broken obligation names the annotation -/
-def envFailures (E : Env) (bad U : List PyTy) : List PyTy := U.filter (fun t => !(tyOK E bad U t))
+def progsOK (E : Env) (bad H : List PyTy) : Bool := H.all (progOK E bad H)
+def clsesOK (E : Env) (bad H : List PyTy) : Bool := E.pkg.classes.all (clsOK E bad H)
+
+/-- failure lists instead of a Bool, so that a broken obligation names the annotation / class -/
+def progFailures (E : Env) (bad H : List PyTy) : List PyTy := H.filter (fun t => !(progOK E bad H t))
+def clsFailures (E : Env) (bad H : List PyTy) : List Name :=
+  (E.pkg.classes.filter (fun c => !(clsOK E bad H c))).map (·.name)
 
 end LspVerif
